@@ -190,7 +190,7 @@ func verifC16Repeat() {
 					dns.RR{Name: q.Name, Type: 65, Class: 1, TTL: 600, Data: dns.HTTPS{Priority: p2, Target: "b.example", ECH: []byte{2}}})
 			}
 		case 1:
-			m.Answer = append(m.Answer, dns.RR{Name: q.Name, Type: 1, Class: 1, TTL: 600, Data: net.IP{10, 0, 0, 1}})
+			m.Answer = append(m.Answer, dns.RR{Name: q.Name, Type: 1, Class: 1, TTL: 600, Data: net.IP{10, 0, 0, q.Name[0]}}) // distinct per name
 		}
 		return m, nil
 	}
@@ -205,7 +205,18 @@ func verifC16Repeat() {
 	for i := range r1.HTTPS {
 		if i < len(r2.HTTPS) {
 			vAssert(r1.HTTPS[i].Priority == r2.HTTPS[i].Priority && r1.HTTPS[i].Target == r2.HTTPS[i].Target, "same HTTPS records in the same order")
+			vAssert(vBytesEq(r1.HTTPS[i].ECH, r2.HTTPS[i].ECH) && len(r2.HTTPS[i].ECH) == 1, "same ECH config lists")
 		}
+	}
+	for i := range r1.Address {
+		if i < len(r2.Address) {
+			vAssert(vBytesEq(r1.Address[i], r2.Address[i]), "same addresses")
+		}
+	}
+	if err2 == nil && p1 > 0 && p2 > 0 { // (both records in service mode)
+		a, b := r2.Additional["a.example"], r2.Additional["b.example"]
+		vAssert(len(a) == 1 && len(b) == 1 && a[0].To4()[3] == 'a' && b[0].To4()[3] == 'b', "every name is answered with its own data (cache entries are kept apart by name)")
+		vAssert(len(r2.Address) == 1 && r2.Address[0].To4()[3] == 'o', "the origin's own address")
 	}
 	vReach("repeat")
 }
@@ -279,4 +290,83 @@ func verifC16Race() {
 	vAssert(a == b, "both users see the same number of targets")
 	vRaces() // every race found by the monitor is reported as a violation of kind "race"
 	vReach("race-checked")
+}
+
+// verifC16Keys: cache entries are kept apart by name and type, a failure for one
+// name does not disturb another name's entry, and a result handed out earlier is
+// not changed when its entry is refreshed.
+func verifC16Keys() {
+	clock := int64(4_000_000)
+	timeNow = func() time.Time { return time.Unix(clock, 0) }
+	queries := 0
+	version := byte(1)
+	failN2 := false
+	dns.VerifHook_DoH = func(ctx context.Context, msg *dns.Message, URL string) (*dns.Message, error) {
+		queries++
+		d, _ := dns.DecodeMessage(msg.Bytes())
+		q := d.Question[0]
+		if failN2 && q.Name == "n2" {
+			return nil, errVTransport
+		}
+		m := &dns.Message{QR: 1}
+		idx := byte(1)
+		if q.Name == "n2" {
+			idx = 2
+		}
+		switch q.Type {
+		case 1:
+			m.Answer = append(m.Answer, dns.RR{Name: q.Name, Type: 1, Class: 1, TTL: 100, Data: net.IP{10, idx, 1, version}},
+				dns.RR{Name: q.Name, Type: 1, Class: 1, TTL: 100, Data: net.IP{10, idx, 2, version}})
+		case 28:
+			m.Answer = append(m.Answer, dns.RR{Name: q.Name, Type: 28, Class: 1, TTL: 100, Data: append(net.IP{0x20, idx, 28, version}, make([]byte, 12)...)})
+		}
+		return m, nil
+	}
+	r := &Resolver{cache: newResolverCache()}
+	ctx := context.Background()
+	look := func(name, typ string, idx, third byte, n int) []any {
+		res, err := r.resolveOne(ctx, name, typ)
+		vAssert(err == nil && len(res) == n, "lookup succeeds with its own records")
+		for _, v := range res {
+			ip := v.(net.IP)
+			vAssert(ip[1] == idx && (n == 1 || ip[2] == 1 || ip[2] == 2) && (n == 2 || ip[2] == third), "a lookup is answered with the data of its own name and type")
+		}
+		return res
+	}
+	// a symbolic order of first lookups
+	order := vInt(0, 2)
+	held := look("n1", "A", 1, 0, 2)
+	heldCopy := []net.IP{append(net.IP{}, held[0].(net.IP)...), append(net.IP{}, held[1].(net.IP)...)}
+	switch order {
+	case 0:
+		look("n2", "A", 2, 0, 2)
+		look("n1", "AAAA", 1, 28, 1)
+	case 1:
+		look("n1", "AAAA", 1, 28, 1)
+		look("n2", "A", 2, 0, 2)
+	case 2:
+		look("n2", "AAAA", 2, 28, 1)
+		look("n2", "A", 2, 0, 2)
+	}
+	// within the TTL everything comes from the cache, each key with its own data
+	before := queries
+	look("n1", "A", 1, 0, 2)
+	look("n2", "A", 2, 0, 2)
+	vAssert(queries == before, "within the TTL both names are served from the cache")
+	// n2's entry expires and its refresh fails: n1, refreshed at the same time, is not disturbed
+	clock += 200
+	look("n1", "A", 1, 0, 2)
+	failN2 = true
+	_, err := r.resolveOne(ctx, "n2", "A")
+	vAssert(err != nil, "the failing name reports its failure")
+	before = queries
+	look("n1", "A", 1, 0, 2)
+	vAssert(queries == before, "a failure for one name leaves another name's fresh entry in the cache")
+	// the zone changes and n1's entry is refreshed: the result handed out earlier is untouched
+	version = 2
+	clock += 200
+	fresh := look("n1", "A", 1, 0, 2)
+	vAssert(fresh[0].(net.IP)[3] == 2, "after expiry the current data is fetched")
+	vAssert(vBytesEq(held[0].(net.IP), heldCopy[0]) && vBytesEq(held[1].(net.IP), heldCopy[1]), "a result handed out earlier is not modified by a later refresh")
+	vReach("keys")
 }
